@@ -507,6 +507,31 @@ def usesWideInt : List Item → Bool
   | .type _ :: r => usesWideInt r
   | .obj _ fs :: r => colsWide fs || usesWideInt r
 
+/-- for every present array member among `vs`: its element count and the number of bytes between its
+count and the end of the tag file (`after` = bytes behind these members) -/
+def fieldTails (p : Enc) : List Bytes → List Nat → List Val → Nat → List (Nat × Nat)
+  | tbl, ty :: tys, v :: vs, after =>
+    let (a, tbl1) := encField p tbl ty v
+    let rest := (encFields p tbl1 tys vs).1.length + after
+    (if isArray ty && v.present then [(v.len, a.length - (p.nat v.len).length + rest)] else []) ++
+      fieldTails p tbl1 tys vs after
+  | _, _, _, _ => []
+
+/-- the same for every object of a file (`encItems`' traversal) -/
+def itemTails (p : Enc) : List Bytes → List TypeDecl → List Item → List (Nat × Nat)
+  | _, _, [] => []
+  | tbl, decls, .type t :: r => itemTails p (encType p tbl t).2 (decls ++ [t]) r
+  | tbl, decls, .obj ty fields :: r =>
+    let tys := (membersOf decls ty).map (·.ty)
+    let tbl' := (encFields p tbl tys fields).2
+    fieldTails p tbl tys fields ((encItems p tbl' decls r).length + (p.int 7).length) ++
+      itemTails p tbl' decls r
+
+/-- some array has more elements than bytes follow its element count (recorded finding
+`havok-array-length-guard`; only a STRUCT array without per-element data can) -/
+def guardTrips (p : Enc) (f : TagFile) : Bool :=
+  (itemTails p initStrings [] f).any fun (n, tail) => decide (tail < n)
+
 /-! ### the standard skeleton file -/
 
 def n_hkRootLevelContainer : Bytes :=
